@@ -63,7 +63,8 @@ CLAIMS = {
     "C08": mixed("PROVED (trapezoidal family, all levels/boxes/flags): announced count == returned points == weights, points inside the box, boundary-off drops exactly global "
                  "boundary points and leaves every remaining weight the composite trapezoidal weight of its global position; with boundary points the weights sum to the box length and "
                  "integrate x exactly (1-D; the list comprehension over range(num_points) is evaluated for an arbitrary index against the contract of get_1d_weight; induction lemmas "
-                 "trapezoid-weights-sum / trapezoid-first-moment). BOUNDED: all families (Trapezoidal, Simpson, Clenshaw-Curtis, Leja, Gauss-Legendre, Lagrange, B-spline) d<=3: counts, containment, weight sum, "
+                 "trapezoid-weights-sum / trapezoid-first-moment); the tensor grid (Grid.setCurrentArea / levelToNumPoints, 1-2 dimensions, per-dimension domain, sub-box, level and flag): "
+                 "every dimension returns as many coordinates and weights as numPoints reports and as its 1-D grid announces, inside the sub-box. BOUNDED: all families (Trapezoidal, Simpson, Clenshaw-Curtis, Leja, Gauss-Legendre, Lagrange, B-spline) d<=3: counts, containment, weight sum, "
                  "polynomial exactness to the nominal degree."),
     "C09": mixed("PROVED for every number of points and every strictly sorted grid: GlobalTrapezoidalGrid.compute_weights returns for each point the exact integral of its "
                  "(modified) hat function (standard; modified n=3, n=4, n>=5), non-negative in the standard case; induction lemma: sum w_i f_i == integral of the piecewise-linear "
